@@ -1,3 +1,4 @@
+#include <iostream>
 // C04 harness (flavour S): the unmodified parmcb MPI entry points on the vmpi shim (P rank threads under a baton
 // scheduler, collectives with deadlock detection, reduce combination orders enumerated) with nested TBB calls on the
 // vtbb shim and an explicit per-rank heap layout (pointer order of the edge descriptors) chosen by the explorer.
@@ -169,6 +170,9 @@ static void explore_input(vr::Runner &R, const Cfg &cfg, const vg::EdgeList &el,
 
 int main(int argc, char **argv) {
     vr::Args A(argc, argv);
+#ifdef PARMCB_LOGGING
+    std::cout.setstate(std::ios_base::badbit);      // built against a config.hpp with PARMCB_LOGGING on: the library chats on std::cout (harness output uses stdio)
+#endif
     Cfg cfg;
     for (auto &s : vr::split(A.get("variants", "signed_mpi,fvs_mpi,fvs_tbb_mpi,iso_mpi,iso_tbb_mpi"), ',')) cfg.variants.push_back(mv_by_name(s));
     for (auto &s : vr::split(A.get("P", "1,2,3"), ',')) cfg.Ps.push_back(atoi(s.c_str()));
